@@ -58,13 +58,14 @@ Qed.
 
 (* -------------------------------------------------- a family of witnesses *)
 (* subroutine s();  integer :: m;  real :: b   ! + what the parameters add
-   names: m = 11, b = 13, s = 10; symbols 1 (m), 3 (b), 4 (routine symbol s) *)
+   name codes (16 * base + case variant): m is stored as `M` (177, key 176), b = 208, s = 160;
+   symbols 1 (m), 3 (b), 4 (routine symbol s) *)
 Definition ref_m : node := Node 50 1 (Rebound 1) None [].
 Definition wit_world (bounds : list node) (osy : list N) (init : option node) : world :=
   mkworld
-    [ (1, {| sname := 11; styped := true; sdt := 31; sinit := None; sintf := ILocal 41 |});
-      (3, {| sname := 13; styped := true; sdt := 32; sinit := init; sintf := ILocal 42 |});
-      (4, {| sname := 10; styped := true; sdt := 33; sinit := None; sintf := ILocal 43 |}) ]
+    [ (1, {| sname := 177; styped := true; sdt := 31; sinit := None; sintf := ILocal 41 |});
+      (3, {| sname := 208; styped := true; sdt := 32; sinit := init; sintf := ILocal 42 |});
+      (4, {| sname := 160; styped := true; sdt := 33; sinit := None; sintf := ILocal 43 |}) ]
     [ (31, {| obounds := []; osyms := []; opay := 1 |});
       (32, {| obounds := bounds; osyms := osy; opay := 2 |});
       (33, {| obounds := []; osyms := []; opay := 3 |});
@@ -73,13 +74,13 @@ Definition wit_world (bounds : list node) (osy : list N) (init : option node) : 
       (43, {| obounds := []; osyms := []; opay := 5 |}) ].
 (* body:  b = <rhs> *)
 Definition wit_tree (rhs : node) : node :=
-  Node 1 100 NoSlot (Some [(10, 4); (11, 1); (13, 3)])
+  Node 1 100 NoSlot (Some [(160, 4); (176, 1); (208, 3)])
     [ Node 2 101 NoSlot None [ Node 3 1 (Rebound 3) None []; rhs ] ].
 Definition lit : node := Node 4 2 NoSlot None [].
 Definition lit_kind_m : node := Node 4 2 (Plain 1) None [].
 
 (* `table.rename_symbol(m, "mm")` on the original *)
-Definition rename_m : list edit := [ERename 1 99].
+Definition rename_m : list edit := [ERename 1 1586].   (* new name `mM`: key 1584 *)
 
 Definition refutes (W : world) (n : node) (es : list edit) : Prop :=
   let off := 1000 in let soff := 1000 in let ooff := 1000 in
@@ -142,28 +143,28 @@ Proof.
 Qed.
 
 (* ------------------------------------------------------------ non-vacuity *)
-(* module-like container with an import, an untyped symbol, a nested routine scope that shadows a
-   name, a loop (Rebound slot on a non-Reference node) with its own inner scope, references from the
+(* module-like container with an import, an untyped symbol, mixed-case stored names (name <> key), a
+   nested routine scope declaring a name that differs from an outer one only in case, a loop (Rebound slot on a non-Reference node) with its own inner scope, references from the
    inner scopes to outer symbols, and a reference to a symbol declared outside the subtree (9). *)
 Definition nv_world : world :=
   mkworld
-    [ (1, {| sname := 11; styped := false; sdt := 30; sinit := None; sintf := ILocal 40 |});   (* container symbol *)
-      (2, {| sname := 12; styped := false; sdt := 30; sinit := None; sintf := IImport 1 |});   (* imported *)
-      (3, {| sname := 13; styped := true; sdt := 31; sinit := Some (Node 60 2 NoSlot None []); sintf := ILocal 41 |});
-      (4, {| sname := 14; styped := true; sdt := 32; sinit := None; sintf := ILocal 42 |});    (* inner i *)
-      (5, {| sname := 13; styped := true; sdt := 31; sinit := None; sintf := ILocal 43 |});    (* inner, shadows 13 *)
-      (6, {| sname := 16; styped := true; sdt := 32; sinit := None; sintf := ILocal 44 |});    (* loop-body local *)
-      (9, {| sname := 19; styped := true; sdt := 33; sinit := None; sintf := ILocal 45 |}) ]   (* outside *)
+    [ (1, {| sname := 176; styped := false; sdt := 30; sinit := None; sintf := ILocal 40 |});   (* container symbol *)
+      (2, {| sname := 193; styped := false; sdt := 30; sinit := None; sintf := IImport 1 |});   (* imported *)
+      (3, {| sname := 209; styped := true; sdt := 31; sinit := Some (Node 60 2 NoSlot None []); sintf := ILocal 41 |});
+      (4, {| sname := 227; styped := true; sdt := 32; sinit := None; sintf := ILocal 42 |});    (* inner i *)
+      (5, {| sname := 210; styped := true; sdt := 31; sinit := None; sintf := ILocal 43 |});    (* inner: differs from 209 only in case *)
+      (6, {| sname := 256; styped := true; sdt := 32; sinit := None; sintf := ILocal 44 |});    (* loop-body local *)
+      (9, {| sname := 305; styped := true; sdt := 33; sinit := None; sintf := ILocal 45 |}) ]   (* outside *)
     [ (30, dobj); (31, {| obounds := [Node 61 2 NoSlot None []; Node 62 1 (Rebound 9) None []]; osyms := [9]; opay := 2 |});
       (32, {| obounds := []; osyms := []; opay := 1 |}); (33, {| obounds := []; osyms := []; opay := 1 |});
       (40, dobj); (41, dobj); (42, dobj); (43, dobj); (44, dobj); (45, dobj) ].
 Definition nv_tree : node :=
-  Node 1 100 NoSlot (Some [(11, 1); (12, 2); (13, 3)])
-    [ Node 2 101 NoSlot (Some [(14, 4); (13, 5)])
+  Node 1 100 NoSlot (Some [(176, 1); (192, 2); (208, 3)])
+    [ Node 2 101 NoSlot (Some [(224, 4); (208, 5)])
         [ Node 3 102 NoSlot None [ Node 4 1 (Rebound 5) None []; Node 5 1 (Rebound 2) None [] ];
           Node 6 103 (Rebound 4) None
             [ Node 7 2 (Plain 9) None [];
-              Node 8 104 NoSlot (Some [(16, 6)])
+              Node 8 104 NoSlot (Some [(256, 6)])
                 [ Node 9 102 NoSlot None [ Node 10 1 (Rebound 6) None [ Node 11 1 (Rebound 4) None [] ];
                                            Node 12 1 (Rebound 9) None [] ] ] ] ];
       Node 13 102 NoSlot None [ Node 14 1 (Rebound 3) None []; Node 15 2 NoSlot None [] ] ].
@@ -177,8 +178,8 @@ Qed.
 
 (* a valid edit sequence on the original exercising every kind of edit *)
 Definition nv_edits : list edit :=
-  [ ERename 3 77;
-    ENewSym 8 500 {| sname := 78; styped := true; sdt := 32; sinit := None; sintf := ILocal 42 |};
+  [ ERename 3 1233;
+    ENewSym 8 500 {| sname := 1249; styped := true; sdt := 32; sinit := None; sintf := ILocal 42 |};
     ESetObj 600 {| obounds := [Node 700 1 (Rebound 3) None []]; osyms := [5]; opay := 9 |};
     ESetSym 5 {| sname := 0; styped := true; sdt := 600; sinit := Some (Node 701 1 (Rebound 4) None []); sintf := ILocal 43 |};
     EReplace 13 (Node 13 102 NoSlot None [ Node 800 1 (Rebound 500) None [] ]);
